@@ -179,6 +179,20 @@ func (m *Machine) vocab(name string) (Intrinsic, bool) {
 			m.finishInline(it, rr, m.IntC(v))
 			return false
 		}, true
+	case "vMulDiffWithin":
+		// vMulDiffWithin(a, b, c, d, k, bound): k*|a*b - c*d| <= bound over the mathematical integers
+		// (natively computed with math/big so that the oracle cannot wrap where the engine's does not)
+		return func(m *Machine, wl *worklist, it *Item, fn *ssa.Function, args []Value, rr int) bool {
+			if !m.IntMode {
+				m.fail("vMulDiffWithin needs int mode")
+			}
+			a, b, cc, d, k, bound := args[0].(T), args[1].(T), args[2].(T), args[3].(T), args[4].(T), args[5].(T)
+			diff := m.sub(c.Bin(sym.OpMul, a, b), c.Bin(sym.OpMul, cc, d))
+			kd := c.Bin(sym.OpMul, k, diff)
+			r := c.And(m.sle(kd, bound), m.sle(m.sub(m.IntC(0), kd), bound))
+			m.finishInline(it, rr, r)
+			return false
+		}, true
 	case "vSincePositive":
 		return func(m *Machine, wl *worklist, it *Item, fn *ssa.Function, args []Value, rr int) bool {
 			m.SincePositive = true
